@@ -40,6 +40,7 @@ type Engine struct {
 	specAccessors map[string]accInfo
 	chanInvs      map[string]*Contract
 	callbacks     map[string]*Contract
+	callsites     map[string][]*Contract // "caller|callee" -> extra preconditions
 	trustedList   []string
 	contractFiles []string
 
@@ -70,7 +71,7 @@ var loadPatterns = []string{
 func NewEngine(repo string) (*Engine, error) {
 	e := &Engine{repo: repo, u: NewUniverse(), contracts: map[string]*Contract{}, loopContracts: map[string]*Contract{},
 		specFuns: map[string]*Contract{}, ghostVars: map[string]Sort{}, specSorts: map[string]Sort{}, specAccessors: map[string]accInfo{},
-		chanInvs: map[string]*Contract{}, callbacks: map[string]*Contract{}, heapSortHint: map[string]Sort{},
+		chanInvs: map[string]*Contract{}, callbacks: map[string]*Contract{}, callsites: map[string][]*Contract{}, heapSortHint: map[string]Sort{},
 		modsMemo: map[*ssa.Function]map[string]bool{}, modsBusy: map[*ssa.Function]bool{}, globals: map[*ssa.Global]int{},
 		funcs: map[*ssa.Function]int{}, ifaceTypes: map[string]types.Type{}, cardSorts: map[Sort]bool{}, ufs: map[string]string{},
 		allFns: map[string]*ssa.Function{}, spkgs: map[string]*ssa.Package{}}
@@ -191,9 +192,37 @@ func (e *Engine) LoadContracts(specDir string) error {
 			}
 			e.loopContracts[key+c.Name[i:]] = c
 		case "chan":
-			e.chanInvs[c.Name] = c
+			// chan ElemType(v)
+			name := c.Name
+			v := "v"
+			if i := strings.Index(name, "("); i >= 0 {
+				v = strings.TrimSuffix(name[i+1:], ")")
+				name = strings.TrimSpace(name[:i])
+			}
+			t := e.lookupTypeIn(name, c.Pkg)
+			if t == nil {
+				return fmt.Errorf("%s:%d: chan: unknown element type %s", c.File, c.Line, name)
+			}
+			c.Params = []Param{{Name: v}}
+			e.chanInvs[types.TypeString(t, nil)] = c
+		case "callsite":
+			cc := *c
+			cc.Name = c.Caller
+			caller, err := e.resolveFuncName(&cc)
+			if err != nil {
+				return err
+			}
+			callee, err := e.resolveFuncName(c)
+			if err != nil {
+				return err
+			}
+			e.callsites[caller+"|"+callee] = append(e.callsites[caller+"|"+callee], c)
 		case "assume-call":
-			e.callbacks[c.Name] = c
+			key, err := e.resolveCallbackName(c)
+			if err != nil {
+				return err
+			}
+			e.callbacks[key] = c
 		}
 	}
 	return nil
@@ -534,7 +563,7 @@ func (e *Engine) Prelude() string {
 	}
 	if e.needStrcat {
 		b.WriteString("(declare-fun strcat (Str Str) Str)\n")
-		b.WriteString("(assert (forall ((a Str) (b Str)) (! (= (strlen (strcat a b)) (+ (strlen a) (strlen b))) :pattern ((strcat a b)))))\n")
+		b.WriteString("(assert (forall ((a Str) (b Str)) (! (=> (<= (+ (strlen a) (strlen b)) 1152921504606846976) (= (strlen (strcat a b)) (+ (strlen a) (strlen b)))) :pattern ((strcat a b)))))\n")
 		b.WriteString("(assert (forall ((a Str) (b Str) (i Int)) (! (= (strat (strcat a b) i) (ite (< i (strlen a)) (strat a i) (strat b (- i (strlen a))))) :pattern ((strat (strcat a b) i)))))\n")
 	}
 	if e.needSubstr {
@@ -544,7 +573,7 @@ func (e *Engine) Prelude() string {
 	}
 	if e.needStrOf {
 		b.WriteString("(declare-fun str_of ((Array Int Int) Int Int) Str)\n")
-		b.WriteString("(assert (forall ((r (Array Int Int)) (o Int) (n Int)) (! (=> (>= n 0) (= (strlen (str_of r o n)) n)) :pattern ((str_of r o n)))))\n")
+		b.WriteString("(assert (forall ((r (Array Int Int)) (o Int) (n Int)) (! (=> (and (>= n 0) (<= n 1152921504606846976)) (= (strlen (str_of r o n)) n)) :pattern ((str_of r o n)))))\n")
 		b.WriteString("(assert (forall ((r (Array Int Int)) (o Int) (n Int) (i Int)) (! (=> (and (<= 0 i) (< i n)) (= (strat (str_of r o n) i) (select r (+ o i)))) :pattern ((strat (str_of r o n) i)))))\n")
 	}
 	us := make([]string, 0, len(e.ufs))
@@ -576,10 +605,81 @@ func (e *Engine) Prelude() string {
 // ---------------------------------------------------------------------------------------
 // hooks (channels, special functions) -- filled in by later layers
 
-func (e *Engine) chanSendHook(f *Frame, x *ssa.Send, st *State)                      {}
-func (e *Engine) chanRecvHook(f *Frame, ch ssa.Value, v Term, st *State)             {}
-func (e *Engine) selectSendHook(f *Frame, x *ssa.Select, i int, idx Term, st *State) {}
-func (e *Engine) callbackContract(f *Frame, v ssa.Value) *Contract                   { return nil }
+func (e *Engine) chanInvFor(ch ssa.Value) (*Contract, types.Type) {
+	ct, ok := ch.Type().Underlying().(*types.Chan)
+	if !ok {
+		return nil, nil
+	}
+	return e.chanInvs[types.TypeString(ct.Elem(), nil)], ct.Elem()
+}
+
+// a value sent on a channel must satisfy the channel's invariant ...
+func (e *Engine) chanSendHook(f *Frame, x *ssa.Send, st *State) {
+	c, et := e.chanInvFor(x.Chan)
+	if c == nil || f.pure {
+		return
+	}
+	v := f.val(x.X, st)
+	v.Go = et
+	for _, inv := range c.Invs {
+		g := f.evalClause(inv, map[string]Val{c.Params[0].Name: v}, st, st)
+		f.un.obligeNamed(st, fmt.Sprintf("chan:%s#%d@%s", TypeKey(et), inv.Idx, f.un.posOf(x.Pos())), "channel", inv.Text, f.un.posOf(x.Pos()), g)
+	}
+}
+
+// ... and a received value may be assumed to satisfy it.
+func (e *Engine) chanRecvHook(f *Frame, ch ssa.Value, v Term, st *State) {
+	c, et := e.chanInvFor(ch)
+	if c == nil {
+		return
+	}
+	for _, inv := range c.Invs {
+		f.un.assume(st, f.evalClause(inv, map[string]Val{c.Params[0].Name: {T: v, Go: et}}, st, st))
+	}
+}
+
+func (e *Engine) selectSendHook(f *Frame, x *ssa.Select, i int, idx Term, st *State) {
+	s := x.States[i]
+	c, et := e.chanInvFor(s.Chan)
+	if c == nil || f.pure {
+		return
+	}
+	v := f.val(s.Send, st)
+	v.Go = et
+	for _, inv := range c.Invs {
+		g := f.evalClause(inv, map[string]Val{c.Params[0].Name: v}, st, st)
+		f.un.obligeNamed(st, fmt.Sprintf("chan:%s#%d@%s", TypeKey(et), inv.Idx, f.un.posOf(x.Pos())), "channel", inv.Text, f.un.posOf(x.Pos()), g)
+	}
+}
+// callbackKey names a function value by where it comes from: "T.field" for a struct field,
+// "<function>.param" for a parameter.
+func callbackKey(fn *ssa.Function, v ssa.Value) string {
+	switch x := v.(type) {
+	case *ssa.Field:
+		if T, st := derefStruct(x.X.Type()); st != nil {
+			return types.TypeString(T, nil) + "." + st.Field(x.Field).Name()
+		}
+	case *ssa.UnOp:
+		if fa, ok := x.X.(*ssa.FieldAddr); ok {
+			if T, st := derefStruct(fa.X.Type()); st != nil {
+				return types.TypeString(T, nil) + "." + st.Field(fa.Field).Name()
+			}
+		}
+	case *ssa.Parameter:
+		return fn.String() + "." + x.Name()
+	case *ssa.FreeVar:
+		return fn.String() + "." + x.Name()
+	}
+	return ""
+}
+
+func (e *Engine) callbackContract(f *Frame, v ssa.Value) *Contract {
+	k := callbackKey(f.fn, v)
+	if k == "" {
+		return nil
+	}
+	return e.callbacks[k]
+}
 
 // lockHeap returns the ghost heap and key holding the state of the mutex at lv
 // (0 = free, 1 = read-locked, 2 = write-locked by this goroutine).
@@ -710,4 +810,28 @@ func (e *Engine) specialSort(f *Frame, args []Val, st *State) Val {
 	un.inQuant--
 	un.assume(st, Forall([]Term{i, j}, Implies(And(Le(off, i), Lt(i, j), Lt(j, hi)), Not(lessJI.T)), Select(newRow, i), Select(newRow, j)))
 	return Val{}
+}
+
+// resolveCallbackName: "T.field" (struct field of func type) or "<func>.param".
+func (e *Engine) resolveCallbackName(c *Contract) (string, error) {
+	i := strings.LastIndex(c.Name, ".")
+	if i < 0 {
+		return "", fmt.Errorf("%s:%d: assume-call needs T.field or func.param", c.File, c.Line)
+	}
+	owner, member := c.Name[:i], c.Name[i+1:]
+	if t := e.lookupTypeIn(owner, c.Pkg); t != nil {
+		if _, st := derefStruct(t); st != nil {
+			for k := 0; k < st.NumFields(); k++ {
+				if st.Field(k).Name() == member {
+					return types.TypeString(t, nil) + "." + member, nil
+				}
+			}
+		}
+	}
+	fc := *c
+	fc.Name = owner
+	if key, err := e.resolveFuncName(&fc); err == nil {
+		return key + "." + member, nil
+	}
+	return "", fmt.Errorf("%s:%d: assume-call %s resolves to nothing", c.File, c.Line, c.Name)
 }
